@@ -546,6 +546,24 @@ def growth_cases(quick):
         cases.append(("tower3-l%d" % l, struct_tower(min(l, 14), fan=3)))
     for n in [8, 64, 200]:
         cases.append(("wide-b%d" % n, wide(n, 100)))
+    # helpers that take a pointer parameter (chains and diamonds), and chains of overrides whose defaults use the previous one several times
+    for d in (8, 16, 24, 40):
+        for ret in (True, False):
+            C = chain(d, ret)
+            for f in C["functions"]:
+                f["ptr"] = True
+            cases.append(("chain-ptr-d%d-%s" % (d, "ret" if ret else "void"), C))
+    for l in (8, 16, 24):
+        D = diamond(l, True)
+        for f in D["functions"]:
+            f["ptr"] = True
+        cases.append(("diamond-ptr-l%d" % l, D))
+    for d, k in ((10, 3), (20, 3), (40, 3), (40, 2)):
+        O = _base()
+        O["overrides"] = [{"name": "level0", "ty": "f32", "default": "1.0"}] + [
+            {"name": "level%d" % i, "ty": "f32", "default": " + ".join(["level%d * 0.5" % (i - 1)] * k)} for i in range(1, d)]
+        O["entries"].append({"name": "main", "stage": "compute", "params": [], "wg": ["1"], "body": [{"k": "ovr", "o": "level%d" % (d - 1)}, {"k": "access", "g": "buf", "how": "load"}]})
+        cases.append(("override-chain-d%d-k%d" % (d, k), O))
     # many unrelated types declared before the tower (type handles beyond any small fixed-size set)
     for pad, l in [(70, 12), (70, 20), (130, 24), (300, 26)]:
         T = struct_tower(l)
@@ -667,7 +685,7 @@ def host_members(rng, space, inner=None, big_arrays=False):
             elif r < 0.75:
                 t = {"k": "array", "n": rng.choice([1, 2, 3, 5, 33, 64] if big_arrays else [1, 2, 3, 5]), "e": rng.choice([rand_leaf(rng), {"k": "array", "n": rng.choice([2, 3]), "e": rand_leaf(rng, allow_mat=False)}])}
             elif r < 0.85 and space == "storage_rw":
-                t = {"k": "atomic", "s": rng.choice(["u32", "i32"])}
+                t = rng.choice([{"k": "atomic", "s": "u32"}, {"k": "atomic", "s": "i32"}, {"k": "atomic", "s": "f32"}, {"k": "array", "n": 4, "e": {"k": "atomic", "s": "f32"}}])
             elif inner:
                 t = rng.choice([{"k": "struct", "name": inner}, {"k": "array", "n": 2, "e": {"k": "struct", "name": inner}}])
             else:
@@ -1071,6 +1089,29 @@ CAPABILITY_SOURCES = [
 ]
 
 
+# modules without any entry point that parse but do not validate (declaration-only files are validated like any other)
+NO_ENTRY_INVALID = [
+    ("uniform-array-stride", "@group(0) @binding(0) var<uniform> w: array<f32, 4>;\n"),
+    ("resource-without-binding", "var<storage, read> s: array<u32, 4>;\n"),
+    ("bad-helper", "var<private> p: u32;\nfn f() -> u32 { p = 1u; return p + 1u; }\nfn g(a: ptr<function, u32>) { f(); }\n@group(0) @binding(0) var<uniform> w: array<vec3<f32>, 2>;\n"),
+    ("handle-in-struct", "struct S { t: texture_2d<f32>, }\n"),
+    ("recursive-ok-but-bad-align", "struct S { @align(3) a: f32, }\n@group(0) @binding(0) var<storage, read> s: S;\n"),
+]
+
+
+def long_tail_sources():
+    """an error near the start of the source, followed by a long tail of multi-byte text (renderers that cut the source by byte offsets)"""
+    out = []
+    tails = ["\u044b", "\u00e9x", "\u6570", "\U0001F600", "a\u00e9\u6570\U0001F600"]
+    for i, t in enumerate(tails):
+        for pad in range(4):
+            tail = "// " + (t * 400)[:700] + "\n@fragment fn fs_main() {}\n// " + (t * 300) + "\n"
+            out.append(("parse-%d-%d" % (i, pad), " " * pad + "fn f() { let x: u32 = 1.0; }\n" + tail))
+            out.append(("valid-%d-%d" % (i, pad), " " * pad + "@group(0) @binding(0) var<uniform> w: array<f32, 4>;\n" + tail))
+            out.append(("late-%d-%d" % (i, pad), " " * pad + tail + "@group(0) @binding(0) var<uniform> w: array<f32, 4>;\n" + tail))
+    return out
+
+
 def c17_cases(rng, seeds, n_per_seed, validate_sets=("none", "all")):
     """seeds: list of (name, valid WGSL text)"""
     cases = []
@@ -1096,6 +1137,10 @@ def c17_cases(rng, seeds, n_per_seed, validate_sets=("none", "all")):
     for name, cap, src in CAPABILITY_SOURCES:
         for val in ("none", "all", "empty", "all-" + cap, "only-" + cap):
             cases.append({"id": "c17-%06d" % k, "family": "capability-" + name, "wgsl": src, "opts": opts(validate=val)})
+            k += 1
+    for name, src in NO_ENTRY_INVALID + long_tail_sources():
+        for val in ("none", "all"):
+            cases.append({"id": "c17-%06d" % k, "family": "semantic-" + name, "wgsl": src, "opts": opts(validate=val)})
             k += 1
     for name, src in INVALID_BUT_PARSABLE:
         for val in ("none", "all", "nof64", "empty"):
